@@ -517,3 +517,124 @@ def sweep_contexts(cls_name):
         kw[o] = v
         add(kw)
   return out
+
+
+# =========================================================================== strengthening round 3
+# (C09, seed C09-9: state derived at construction goes stale when a layer adopts the quantizer).
+# Additions only.
+
+def _rnn_held(layer):
+  return layer.cell.recurrent_quantizer_internal
+
+
+# public wrappers that call `_set_trainable_parameter()` on the quantizer they are handed:
+# (name, layer factory, how to reach the held quantizer)
+LAYER_WRAPPERS = (
+    ("QDense.kernel", lambda m, q: m.QDense(4, kernel_quantizer=q),
+     lambda l: l.kernel_quantizer_internal),
+    ("QConv2D.kernel", lambda m, q: m.QConv2D(4, 3, kernel_quantizer=q),
+     lambda l: l.kernel_quantizer_internal),
+    ("QDepthwiseConv2D.depthwise", lambda m, q: m.QDepthwiseConv2D(3, depthwise_quantizer=q),
+     lambda l: l.depthwise_quantizer_internal),
+    ("QSeparableConv2D.pointwise", lambda m, q: m.QSeparableConv2D(4, 3, pointwise_quantizer=q),
+     lambda l: l.pointwise_quantizer_internal),
+    ("QConv1D.kernel", lambda m, q: m.QConv1D(4, 3, kernel_quantizer=q),
+     lambda l: l.kernel_quantizer_internal),
+    ("QSimpleRNN.recurrent", lambda m, q: m.QSimpleRNN(4, recurrent_quantizer=q), _rnn_held),
+    ("QBatchNormalization.gamma", lambda m, q: m.QBatchNormalization(gamma_quantizer=q),
+     lambda l: l.gamma_quantizer_internal),
+)
+
+
+def adopt(idx, q):
+  """hand the live quantizer `q` to a layer through the public constructor; returns
+  (wrapper name, layer, getter)"""
+  import qkeras
+  name, make, held = LAYER_WRAPPERS[idx % len(LAYER_WRAPPERS)]
+  return name, make(qkeras, q), held
+
+
+def stp_overridden(cls):
+  """the class (or a base other than BaseQuantizer) defines `_set_trainable_parameter`"""
+  for k in cls.__mro__:
+    if "_set_trainable_parameter" in vars(k):
+      return k.__name__ != "BaseQuantizer"
+  return False
+
+
+_REPORTER_METHODS = ("max", "min", "range", "get_clip_bounds")
+_REPORTER_PROPERTIES = ("data_type_scale", "use_sign_function", "auto_alpha", "default_quantization_scale")
+
+
+def reporters(q):
+  """what the public reporters of a live quantizer answer NOW (model-free; a reporter that
+  raises is recorded as such)"""
+  out = {}
+  for n in _REPORTER_METHODS:
+    f = getattr(q, n, None)
+    if callable(f):
+      try:
+        out[n + "()"] = henc(f())
+      except Exception as e:  # pylint: disable=broad-except
+        out[n + "()"] = {"s": "<raises:%s>" % err_tag(e)}
+  for n in _REPORTER_PROPERTIES:
+    if isinstance(getattr(type(q), n, None), property):
+      try:
+        out[n] = henc(getattr(q, n))
+      except Exception as e:  # pylint: disable=broad-except
+        out[n] = {"s": "<raises:%s>" % err_tag(e)}
+  return out
+
+
+def lin_derived(q):
+  """call-time derived quantities of a quantized_linear as exact rationals (model: linDerived)"""
+  if type(q).__name__ != "quantized_linear":
+    return None
+  try:
+    lo, hi = q.get_clip_bounds()
+    return {"clip": [core.rj(float(lo)), core.rj(float(hi))],
+            "data_type_scale": core.rj(float(q.data_type_scale)),
+            "use_sign_function": bool(q.use_sign_function), "auto_alpha": bool(q.auto_alpha)}
+  except Exception as e:  # pylint: disable=broad-except
+    return {"raises": err_tag(e)}
+
+
+def trainable_cells(cls_name, rewritten):
+  """configurations on which `_set_trainable_parameter()` FIRES (alpha None), aimed at its case
+  split: (A) every single-option configuration of the default context, (B) every context with
+  `alpha` stripped, alone and next to every lattice value and 0 / 1 of every option the
+  step REWRITES besides alpha (`rewritten`: read from the model).  Returns [(kind, kw)]"""
+  lat = LATTICE[cls_name]
+  if "alpha" not in lat["options"]:
+    return []
+  out, seen = [], set()
+
+  def add(kind, kw):
+    k = _key(kw)
+    if k not in seen and kw.get("alpha") is None:
+      seen.add(k)
+      out.append((kind, {a: b for a, b in kw.items() if a != "alpha"}))
+  stripped = []
+  for ctx in lat["contexts"]:
+    s = {a: b for a, b in ctx.items() if a != "alpha"}
+    if s not in stripped:
+      stripped.append(s)
+  for o in rewritten:
+    vals = list(lat["options"].get(o, [])) + [0, 1]
+    for s in stripped:
+      if o in s:
+        continue
+      for v in vals:
+        kw = dict(s)
+        kw[o] = v
+        add("B", kw)
+  for s in stripped:
+    add("B", s)
+  for o, vals in lat["options"].items():
+    if o == "alpha":
+      continue
+    for v in vals:
+      if isinstance(v, np.ndarray):
+        continue
+      add("A", {o: v})
+  return out
